@@ -54,7 +54,7 @@ extern double *mpt_values_prepare(_MPT_ARRAY_TYPE(double) *arr, long len)
 	if (len >= 0) {
 		add = len * sizeof(double);
 	}
-	else if (used < (-len)) {
+	else if ((size_t) used / sizeof(double) < (size_t) (-len)) {
 		errno = EINVAL;
 		return 0;
 	} else {
